@@ -108,9 +108,21 @@ func init() {
 				defer os.Remove(path)
 				pr := ParseText(f.Text)
 				parseOK = pr.Accepted
+				diverges := ""
+				if pr.FuelOut || len(pr.Panics) > 0 || pr.Blocked {
+					diverges = fmt.Sprintf("the parser crashes, blocks or diverges on this file (panics=%v, blocked=%v, fuel exhausted=%v)", pr.Panics, pr.Blocked, pr.FuelOut)
+				}
 				if parseOK {
 					tr := TypecheckText(f.Text, nil, nil)
 					tcOK = tr.Accepted()
+					if tr.FuelOut || len(tr.Panics) > 0 || tr.Blocked {
+						diverges = fmt.Sprintf("the typechecker crashes, blocks or diverges on this file (panics=%v, blocked=%v, fuel exhausted=%v)", tr.Panics, tr.Blocked, tr.FuelOut)
+					}
+				}
+				if diverges != "" && idx%nch == 0 {
+					// deterministic (fuel based) counterpart of the wall-clock watchdog below: the command cannot
+					// gate-keep a file on which the library itself does not produce a verdict
+					r.Violation(harness.Violation{Key: "library gives no verdict: " + f.Name, Desc: f.Name + ": " + diverges, Replay: map[string]interface{}{"kind": "cli", "file": f.Name, "text": f.Text}})
 				}
 				// independent classification where the reference models are definite: the reference grammar
 				// decides the parse verdict, the reference typechecker the typing verdict
